@@ -84,13 +84,15 @@ CLAIMS = {
             'remainder bound at the switch point (<=2e-7 absolute, <=1e-6 relative), Rybicki recurrences and constants; C17.f all 69 (component, dl, dm) cases of the Y and Psi '
             'coefficient tables against the closed forms (Psi = kappa*Y), driver loops visit lhat in {l-1,l+1}, mhat in {m-1,m,m+1} with |mhat|<=lhat at several (l,m) incl. sectoral',
             'Dawson/Erfi accuracy of the large-argument sum, Round\'s half-unit property near powers of ten, accuracy of Inv_Erf beyond its tolerance wiring'),
-    'C19': ('symbolic comprehension summaries of the grid/list loops, finite-table evaluation of the Sub_List index prologue, statement-order rule for Median',
+    'C19': ('symbolic comprehension summaries of the grid/list/partition loops, finite-table evaluation of the Sub_List index prologue, of the partition closed form and of the nearest-element path conditions, statement-order rule for Median',
             'C19.a Linear_Space/Log_Space elements follow the definition (last element is max identically) and the degenerate-case predicate; C19.b Transpose_Lists, Lists_Equal, '
             'List_Contains, Find_Indices, Combine_Lists, Flatten_List by schema; Sub_List copies exactly the clipped inclusive range inside the list on the complete table of '
             '(i1,i2,size); C19.c mean, variance (N-1), standard deviation, weighted average and its equal-weight reduction (N=4 symbolic data), Median selects each central element by '
-            'its own nth_element and reads it directly afterwards',
-            'Workload_Distribution balance, Range enumeration and Locate_Closest_Location ties (integer relations between run-time arguments: exhaustive enumeration is another family), '
-            'monotonicity and equal spacing of the grids to rounding'),
+            'its own nth_element and reads it directly afterwards; C19.d the closed form of Workload_Distribution\'s index list (prefix-recurrence and accumulation loop summaries) '
+            'satisfies length, end points, monotonicity and balance on the complete domain 1<=workers<=128, 0<=tasks<=1024; C19.e Range enumerates min, min+-step, ... strictly '
+            'before max (ascending/descending branch predicate, start, continuation test, step); C19.f Locate_Closest_Location returns a nearest index on the complete abstract table of '
+            '(size, upper_bound position, order of the two neighbouring distances)',
+            'monotonicity and equal spacing of the grids to rounding; Range with a non-positive step (outside the property\'s quantifier); searches written without std::upper_bound are undecided'),
     'C02': ('path enumeration of the entry logic on a table of end values (IEEE NaN comparison semantics) and a one-iteration symbolic summary of the Ridders loop',
             'C02.a reversed brackets enter the iteration with exchanged ends and their own values; C02.b the function is evaluated only at the two ends, at the midpoint and at '
             'Ridders\' point x3+(x3-x1)sgn(f1-f2)f3/sqrt(f3^2-f1f2) built from values taken at x1,x2,x3; C02.c every re-bracketing branch keeps f_i=F(x_i) and is selected by a '
